@@ -85,6 +85,9 @@ Minor(ver) ==
 HeaderVariants(ver) ==
   LET h == SB[Header(ver)]
   IN  {SB[Header(v)] : v \in VersionSet}                       \* other versions' headers, none
+      \cup {<<c>> \o SB[Header(v)] : v \in VersionSet, c \in {32, 9, 10, 13}}   \* a blank, then any version's header
+      \cup {SB[Header(v)] \o <<c>> : v \in VersionSet, c \in {32, 9}}
+      \cup {LowerB(SB[Header(v)]) : v \in VersionSet}
       \cup {SubSeq(h, 1, k) : k \in 0..Len(h)}                  \* every prefix of the header ...
       \cup {SubSeq(h, 1, k) \o <<SLASH>> : k \in 0..Len(h)}    \* ... alone and followed by "/"
       \cup { LowerB(h), SubSeq(h, 1, Len(h) - 1), h \o h, <<32>> \o h, h \o <<32>>,
@@ -157,7 +160,15 @@ DevReplace ==
   /\ \E k \in 1..Len(els) :
        LET m == MetricAt(inp.ver, els[k])
            toks == AllLegal \cup (IF m # NoMetric THEN LocalJunk(inp.ver, m) ELSE {})
-       IN  \E t \in toks : t # els[k] /\ Build([els EXCEPT ![k] = t], Tag("replace", k), NoExp)
+       IN  \E t \in toks :
+             /\ t # els[k]
+             /\ LET tm == ElemMetric(inp.ver, t)
+                    p2 == [els EXCEPT ![k] = t]
+                    \* a legal element of ANOTHER metric where metric m belongs: a misplaced metric (v2 / v4: order),
+                    \* unless the result happens to be a well-formed vector (v4 optional metrics)
+                    misplaced == tm # NoMetric /\ m # NoMetric /\ tm # m /\ inp.ver \in {"2.0", "4.0"}
+                                 /\ ~WF(inp.ver, SB[Header(inp.ver)] \o Body(inp.ver, p2))
+                IN  Build(p2, Tag("replace", k), IF misplaced THEN Err("order") ELSE NoExp)
 
 (* insert a token at position j: unknown / repeated / misplaced metric *)
 DevInsert ==
